@@ -15,6 +15,7 @@ Prints one JSON line.
 #include <sched.h>
 #include <signal.h>
 #include <stdatomic.h>
+#include <sys/mman.h>
 #include <stdio.h>
 #include <stdlib.h>
 #include <string.h>
@@ -29,7 +30,7 @@ extern int exception_handler_usecount;
 
 #define MAXT 32
 #define MAXBUF 12
-#define NENTRY 5   /* rules_mem, scanner_mem, scanner_file, scanner_fd, scanner_blocks */
+#define NENTRY 6   /* rules_mem, scanner_mem, scanner_file, scanner_fd, scanner_blocks */
 #define NABORT 4   /* -1 (none), 0, 3, 7 */
 
 typedef struct
@@ -51,6 +52,9 @@ static const int abort_at[NABORT] = {-1, 0, 3, 7};
 static atomic_int phase_of[MAXT];          // current phase of each thread (0 = not scanning)
 static atomic_ullong overlap[8];           // overlap[a] bit b: phase a seen while another thread was in phase b
 static atomic_long scans_done, mismatches, points_hit, early_timeouts, timed_scans;
+static atomic_long fd_closed, fault_scans, fault_wrong_rc;
+static uint8_t* fault_map = NULL;  // two pages of a one-page file: touching the second page raises SIGBUS
+static size_t fault_len = 0;
 static int big_index = -1;
 static __thread int my_tid = -1;
 static __thread unsigned my_rng;
@@ -150,6 +154,18 @@ static int one_scan(YR_SCANNER* sc, int tid, int b, int entry, int ab, uint64_t*
     int fd = open(B->path, O_RDONLY);
     yr_scanner_set_callback(sc, scan_cb, &cb);
     rc = yr_scanner_scan_fd(sc, fd);
+    if (fcntl(fd, F_GETFD) == -1)
+      atomic_fetch_add(&fd_closed, 1);  // the descriptor is the caller's, the library must not close it
+    close(fd);
+    break;
+  }
+  case 5:
+  {
+    // rule-set level descriptor scan (its own map/unmap path)
+    int fd = open(B->path, O_RDONLY);
+    rc = yr_rules_scan_fd(rules, fd, (b % 2) ? SCAN_FLAGS_FAST_MODE : 0, scan_cb, &cb, (tid % 3) ? 0 : 1000);
+    if (fcntl(fd, F_GETFD) == -1)
+      atomic_fetch_add(&fd_closed, 1);
     close(fd);
     break;
   }
@@ -262,7 +278,7 @@ static void* worker(void* arg)
     int rc = one_scan(sc, tid, b, entry, ab, &h);
     atomic_store(&phase_of[tid], 0);
     atomic_fetch_add(&scans_done, 1);
-    int rt = (entry == 0) ? 0 : tid;  // rules-level scans do not see scanner externals: reference of "thread 0 via rules"
+    int rt = (entry == 0 || entry == 5) ? 0 : tid;  // rules-level scans do not see scanner externals: reference of "thread 0 via rules"
     if (h != reference[rt][b][entry][ab])
     {
       atomic_fetch_add(&mismatches, 1);
@@ -271,6 +287,17 @@ static void* worker(void* arg)
         snprintf(first_mismatch, sizeof(first_mismatch), "thread %d buffer %d (%s) entry %d abort_at %d: rc %d (reference rc %d)",
                  tid, b, bufs[b].path, entry, abort_at[ab], rc, ref_rc[rt][b][entry][ab]);
       pthread_mutex_unlock(&mm_mutex);
+    }
+    if (fault_map != NULL && (my_rng >> 26) % 24 == 0)
+    {
+      // a scan whose data faults (file truncated under a mapping): the library's SIGBUS handler turns it into
+      // ERROR_COULD_NOT_MAP_FILE for THIS scan; scans running in other threads at that moment keep their protection
+      CB cbf = {0, 0, -1, 0};
+      int frc = yr_rules_scan_mem(rules, fault_map, fault_len, 0, scan_cb, &cbf, 0);
+      atomic_store(&phase_of[tid], 0);
+      atomic_fetch_add(&fault_scans, 1);
+      if (frc != ERROR_COULD_NOT_MAP_FILE)
+        atomic_fetch_add(&fault_wrong_rc, 1);
     }
     if ((my_rng >> 24) % 64 == 0)
     {
@@ -355,6 +382,32 @@ int main(int argc, char** argv)
     yr_scanner_destroy(sc);
   }
 
+  if (getenv("YRMT_FAULTS") != NULL)
+  {
+    char fp[700];
+    long page = sysconf(_SC_PAGESIZE);
+    snprintf(fp, sizeof(fp), "%s/fault_%d.bin", wd, (int) getpid());
+    int ffd = open(fp, O_RDWR | O_CREAT | O_TRUNC, 0600);
+    if (ffd >= 0)
+    {
+      char* fill = (char*) malloc(page);
+      memset(fill, 'n', page);
+      memcpy(fill + 10, " needle ", 8);
+      if (write(ffd, fill, page) == page)
+      {
+        void* m = mmap(NULL, 2 * page, PROT_READ, MAP_PRIVATE, ffd, 0);
+        if (m != MAP_FAILED)
+        {
+          fault_map = (uint8_t*) m;
+          fault_len = 2 * page;
+        }
+      }
+      free(fill);
+      close(ffd);
+      unlink(fp);
+    }
+  }
+
   yr_verif_point = point_cb;
   pthread_t th[MAXT];
   for (int t = 0; t < nthreads; t++) pthread_create(&th[t], NULL, worker, (void*) (intptr_t) t);
@@ -371,9 +424,11 @@ int main(int argc, char** argv)
       if (atomic_load(&overlap[a]) & (1ULL << b))
         pairs++;
   printf("{\"threads\":%d,\"scans\":%ld,\"reference_scans\":%ld,\"mismatches\":%ld,\"usecount\":%d,\"handlers_restored\":%d,"
-         "\"overlap_pairs\":%d,\"points\":%ld,\"timed_scans\":%ld,\"early_timeouts\":%ld,\"first_mismatch\":\"%s\"}\n",
+         "\"overlap_pairs\":%d,\"points\":%ld,\"timed_scans\":%ld,\"early_timeouts\":%ld,\"fd_closed\":%ld,\"fault_scans\":%ld,"
+         "\"fault_wrong_rc\":%ld,\"first_mismatch\":\"%s\"}\n",
          nthreads, atomic_load(&scans_done), refs, atomic_load(&mismatches), exception_handler_usecount, handlers_restored, pairs,
-         atomic_load(&points_hit), atomic_load(&timed_scans), atomic_load(&early_timeouts), first_mismatch);
+         atomic_load(&points_hit), atomic_load(&timed_scans), atomic_load(&early_timeouts), atomic_load(&fd_closed),
+         atomic_load(&fault_scans), atomic_load(&fault_wrong_rc), first_mismatch);
   yr_rules_destroy(rules);
   yr_finalize();
   return 0;
